@@ -7,6 +7,72 @@ From RecordUpdate Require Import RecordSet.
 Import RecordSetNotations.
 Open Scope N_scope.
 
+(* the four component types are implicit in the engine functions, locally to this file *)
+#[local] Arguments init {enc dec} _ {ores ires} _ _.
+#[local] Arguments release {enc dec ores ires} _ _ _ _.
+#[local] Arguments disconnect_completion {enc dec ores ires} _ _.
+#[local] Arguments fail_op {enc dec ores ires} _ _ _ _.
+#[local] Arguments ping_extension {enc dec ores ires} _ _.
+#[local] Arguments succeed_op {enc dec ores ires} _ _ _ _.
+#[local] Arguments fail_all {enc dec ores ires} _ _ _ _.
+#[local] Arguments succeed_all {enc dec ores ires} _ _ _.
+#[local] Arguments andthen {enc dec ores ires} _ _.
+#[local] Arguments try_ {enc dec ores ires} _ _.
+#[local] Arguments pure {enc dec ores ires} _.
+#[local] Arguments create_operation {enc dec ores ires} _ _.
+#[local] Arguments passes_now {enc dec ores ires} _ _ _.
+#[local] Arguments user_event {enc dec ores ires} _ _ _ _.
+#[local] Arguments create_connect {enc dec ores ires} _ _.
+#[local] Arguments net_opened {enc dec} _ {ores ires} _ _ _.
+#[local] Arguments op_exists {enc dec ores ires} _ _.
+#[local] Arguments op_passes {enc dec ores ires} _ _ _.
+#[local] Arguments partition_policy {enc dec ores ires} _ _ _.
+#[local] Arguments closed_current {enc dec ores ires} _ _.
+#[local] Arguments slow_start_init {enc dec ores ires} _ _.
+#[local] Arguments update_retries {enc dec ores ires} _ _.
+#[local] Arguments fail_exceeding {enc dec ores ires} _ _.
+#[local] Arguments has_pubrel {enc dec ores ires} _ _.
+#[local] Arguments net_closed_raw {enc dec ores ires} _ _.
+#[local] Arguments net_closed {enc dec ores ires} _ _.
+#[local] Arguments net_write_completion {enc dec ores ires} _ _.
+#[local] Arguments acquire_free_pid {enc dec ores ires} _ _.
+#[local] Arguments acquire_pid_for {enc dec ores ires} _ _.
+#[local] Arguments unbind {enc dec ores ires} _ _.
+#[local] Arguments passes_receive_max {enc dec ores ires} _ _.
+#[local] Arguments throttled {enc dec ores ires} _ _.
+#[local] Arguments has_pending_ack {enc dec ores ires} _.
+#[local] Arguments dequeue {enc dec ores ires} _ _ _.
+#[local] Arguments fully_written {enc dec ores ires} _ _.
+#[local] Arguments service_keep_alive {enc dec ores ires} _ _ _.
+#[local] Arguments process_ack_timeouts {enc dec ores ires} _ _ _.
+#[local] Arguments halt_on_error {enc dec ores ires} _ _.
+#[local] Arguments next_service_time {enc dec ores ires} _ _ _.
+#[local] Arguments build_settings {enc dec ores ires} _ _ _.
+#[local] Arguments apply_session {enc dec ores ires} _ _ _.
+#[local] Arguments hres_of {enc dec ores ires} _ _.
+#[local] Arguments pre_connack {enc dec ores ires} _.
+#[local] Arguments sum_ss {enc dec ores ires} _.
+#[local] Arguments handle_pingresp {enc dec ores ires} _.
+#[local] Arguments handle_suback {enc dec ores ires} _ _ _.
+#[local] Arguments handle_unsuback {enc dec ores ires} _ _ _.
+#[local] Arguments publish_qos_of {enc dec ores ires} _ _.
+#[local] Arguments handle_puback {enc dec ores ires} _ _ _.
+#[local] Arguments handle_pubrec {enc dec ores ires} _ _ _.
+#[local] Arguments handle_pubrel {enc dec ores ires} _ _.
+#[local] Arguments handle_pubcomp {enc dec ores ires} _ _ _.
+#[local] Arguments handle_publish {enc dec ores ires} _ _.
+#[local] Arguments handle_disconnect {enc dec ores ires} _ _ _.
+#[local] Arguments is_connect_op {enc dec ores ires} _ _.
+#[local] Arguments connect_in_queue {enc dec ores ires} _.
+#[local] Arguments reset {enc dec ores ires} _ _.
+#[local] Arguments out_of_res {enc dec ores ires} _ _.
+#[local] Arguments nst_queue {enc dec ores ires} _ _ _ _.
+#[local] Arguments earliest_tmo {enc dec ores ires} _.
+#[local] Arguments SeatStop {enc dec ores ires} _.
+#[local] Arguments SeatContinue {enc dec ores ires} _ _.
+#[local] Arguments SeatEncode {enc dec ores ires} _.
+
+
 Lemma iter_pres {A B} (f : A -> A) (g : A -> B) : (forall a, g (f a) = g a) -> forall n a, g (Nat.iter n f a) = g a.
 Proof. intros H n a. induction n as [|n IH]; [reflexivity|]. cbn [Nat.iter nat_rect]. rewrite H. exact IH. Qed.
 
@@ -22,29 +88,34 @@ Section Close.
     s_next_pid s' = s_next_pid s /\ s_enc s' = s_enc s /\ s_connack_to s' = s_connack_to s /\ s_ping_to s' = s_ping_to s.
   Proof. unfold rest_of. intros H. inversion H. repeat split; assumption. Qed.
 
-  (* packet ids of surviving operations are unchanged *)
-  Definition pidpres (s s' : state) : Prop :=
+  (* packet ids of surviving operations are unchanged, and so are the four component states *)
+  Definition pidonly (s s' : state) : Prop :=
     forall i o', getop s' i = Some o' -> exists o, getop s i = Some o /\ op_pid o' = op_pid o.
+  Definition pidpres (s s' : state) : Prop := pidonly s s' /\ comp_of s' = comp_of s.
 
   Lemma pidpres_refl s : pidpres s s.
-  Proof. intros i o H. eauto. Qed.
+  Proof. split; [intros i o H; eauto|reflexivity]. Qed.
 
   Lemma pidpres_trans s1 s2 s3 : pidpres s1 s2 -> pidpres s2 s3 -> pidpres s1 s3.
   Proof.
-    intros A B i o3 H3. destruct (B _ _ H3) as (o2 & H2 & E2). destruct (A _ _ H2) as (o1 & H1 & E1).
+    intros [A A'] [B B']. split; [|congruence].
+    intros i o3 H3. destruct (B _ _ H3) as (o2 & H2 & E2). destruct (A _ _ H2) as (o1 & H1 & E1).
     exists o1. split; [exact H1|congruence].
   Qed.
 
   Lemma pidpres_frame ids s s' : frame_c ids s s' -> pidpres s s'.
-  Proof. intros F i o H. exists o. split; [apply (fc_sub _ _ _ F); exact H|reflexivity]. Qed.
+  Proof.
+    intros F. split; [|apply rest_comp; apply F].
+    intros i o H. exists o. split; [apply (fc_sub _ _ _ F); exact H|reflexivity].
+  Qed.
 
-  Lemma pidpres_ops (s s' : state) : s_ops s' = s_ops s -> pidpres s s'.
-  Proof. intros E i o H. unfold getop in *. rewrite E in H. eauto. Qed.
+  Lemma pidpres_ops (s s' : state) : s_ops s' = s_ops s -> comp_of s' = comp_of s -> pidpres s s'.
+  Proof. intros E Ec. split; [|exact Ec]. intros i o H. unfold getop in *. rewrite E in H. eauto. Qed.
 
   Lemma pidpres_upd_all (s s' : state) f ids :
-    (forall o, op_pid (f o) = op_pid o) -> s_ops s' = upd_all f ids (s_ops s) -> pidpres s s'.
+    (forall o, op_pid (f o) = op_pid o) -> s_ops s' = upd_all f ids (s_ops s) -> comp_of s' = comp_of s -> pidpres s s'.
   Proof.
-    intros Hf E i o' H. unfold getop in *. rewrite E in H.
+    intros Hf E Ec. split; [|exact Ec]. intros i o' H. unfold getop in *. rewrite E in H.
     destruct (lookup_upd_all f ids (s_ops s) i) as (n & Hn & _). rewrite Hn in H.
     destruct (lookup i (s_ops s)) as [o|]; [|discriminate]. inversion H; subst. exists o. split; [reflexivity|].
     apply (iter_pres f op_pid Hf).
@@ -88,11 +159,12 @@ Section Close.
     WFS s -> s_cur s = Some id -> s_st s = Disconnected ->
     s_ops s' = s_ops s -> s_alloc s' = s_alloc s -> s_ppub s' = s_ppub s -> s_pnon s' = s_pnon s -> s_next_id s' = s_next_id s ->
     s_next_pid s' = s_next_pid s -> s_pwco s' = s_pwco s -> s_hq s' = s_hq s -> s_st s' = s_st s -> s_tmo s' = s_tmo s ->
+    comp_of s' = comp_of s ->
     (s_uq s' = id :: s_uq s /\ s_rq s' = s_rq s) \/ (s_uq s' = s_uq s /\ s_rq s' = id :: s_rq s) ->
     cc_spec s (mkRes s' [] (Ok tt)).
   Proof.
-    intros HW Hc Hst E1 E2 E3 E4 E5 E6 E7 E8 E9 E10 Hq. unfold cc_spec. cbn [r_s r_out].
-    split; [reflexivity|]. split; [|split; [congruence|split; [exact E10|apply pidpres_ops; exact E1]]].
+    intros HW Hc Hst E1 E2 E3 E4 E5 E6 E7 E8 E9 E10 Ecomp Hq. unfold cc_spec. cbn [r_s r_out].
+    split; [reflexivity|]. split; [|split; [congruence|split; [exact E10|apply pidpres_ops; [exact E1|exact Ecomp]]]].
     eapply WFS_queues; [exact HW| | | | | | | | | | |]; cbn; try assumption; auto.
     - core_cbn. cbn. rewrite Hc. intros p i o Hi Hp T.
       destruct Hq as [[-> ->]|[-> ->]]; cbn; intuition (try congruence);
@@ -208,7 +280,7 @@ Section Close.
   Proof.
     intros HW Hf. unfold mark_spec. cbn. splits; try reflexivity.
     - eapply WFc_upd_all; [exact HW| |reflexivity]. intros i o _. destruct (Hf o) as (F1 & F2 & F3). apply upd_ok_neutral; assumption.
-    - eapply pidpres_upd_all; [|reflexivity]. intros o. apply Hf.
+    - eapply pidpres_upd_all; [|reflexivity|reflexivity]. intros o. apply Hf.
   Qed.
 
   Lemma slow_start_init_spec (s : state) :
@@ -352,7 +424,7 @@ Section Close.
                   <| s_ops := fold_left (fun ops id => update id (set_dup true) ops) (map snd (s_ppub s8)) (s_ops s8) |>
                   <| s_rq := s_rq s8 ++ map snd (s_ppub s8) |>) in *.
     assert (P9 : pidpres s8 s9).
-    { eapply (pidpres_upd_all s8 s9 (set_dup true)); [|reflexivity]. intros o. apply set_dup_fields. }
+    { eapply (pidpres_upd_all s8 s9 (set_dup true)); [|reflexivity|reflexivity]. intros o. apply set_dup_fields. }
     assert (Hst9 : s_st s9 = Disconnected) by exact Hst.
     assert (Hhq9 : s_hq s9 = []) by exact Hhq.
     assert (Hpw9 : s_pwco s9 = []) by exact Hpw.
@@ -406,7 +478,8 @@ Section Close.
         destruct Hd as (p & Hd). cbn in Hd. rewrite Hpp9 in Hd. destruct Hd.
     - cbn. eapply disc_frame; [apply (fs_frame _ _ _ _ _ F)|exact Hst11].
     - unfold closed_fields. cbn. rewrite R5, R3, R6, R4. cbn. tauto.
-    - eapply pidpres_trans; [exact P9|]. intros i o Hi. cbn in Hi.
-      apply (fc_sub _ _ _ (fs_frame _ _ _ _ _ F)) in Hi. eauto.
+    - eapply pidpres_trans; [exact P9|]. split.
+      + intros i o Hi. cbn in Hi. apply (fc_sub _ _ _ (fs_frame _ _ _ _ _ F)) in Hi. eauto.
+      + transitivity (comp_of (r_s r)); [reflexivity|]. rewrite (rest_comp _ _ (fc_rest _ _ _ (fs_frame _ _ _ _ _ F))). reflexivity.
   Qed.
 End Close.
